@@ -189,6 +189,7 @@ def run(tier, seed, flavour="plain"):
         "samples": num["samples"][:4] + fsamples,
         "number_level_counters": num["counters"],
         "exhaustive_float": num["counters"].get("float_patterns_enumerated", 0) == 2 ** 32,
+        "stream_under_field_width_probes": frm["counters"].get("stream_with_field_width_probes", 0),
         "form_events_checked": n_events, "form_events_by_kind": kinds, "quantity_types_by_numeric_type": qt,
         "form_lists": frm["lists"],
     }
